@@ -1545,12 +1545,14 @@ zshPrefixLoop:
 		default:
 			break zshPrefixLoop
 		}
-		next, after := p.peekTwo()
+		// Only look at the byte after next if next doubles the prefix;
+		// an interactive parser must not wait for input it does not need.
+		next := p.peek()
 		state := OptOn
 		check := next
 		if rune(next) == p.r {
 			state = OptOff
-			check = after
+			_, check = p.peekTwo()
 		}
 		if check == utf8.RuneSelf || check == '}' {
 			break zshPrefixLoop
